@@ -55,7 +55,7 @@ impl Monitor for C18 {
 		"C18"
 	}
 	fn rule(&self) -> String {
-		"C01's replay space (versions/ports writable to .slpp) x compression. Every archive peppi::write produces is parsed by the harness's own tar reader. Oracle: bytes 0..10 are 'peppi.json'; entry names in order = peppi.json, metadata.json, start.json, start.raw, [end.json, end.raw iff the game has an end], [gecko_codes.raw iff gecko codes], frames.arrow last (required when rows > 0; with zero rows either choice is accepted); every *.json entry parses as JSON (own parser) and is byte-equal to serde's rendering of what peppi::read reconstructs from the archive; start.raw/end.raw equal the original blocks; writing the same game twice gives identical bytes. Unknown entries (random names/sizes, written with the harness's tar writer) inserted at EVERY position before frames.arrow must not change the game read. Format-version gate: peppi.json rewritten with version triples on both sides of 2.0.0 (quick: boundary neighbourhood + random; thorough adds all (major,minor,0) and random triples): < 2.0.0 must be rejected, >= 2.0.0 accepted, with the reader's skip_frames option off and on. distinct = workload classes x compression + entry-order shapes + insertion positions + version sides.".into()
+		"C01's replay space (versions/ports writable to .slpp) x compression. Every archive peppi::write produces is parsed by the harness's own tar reader. Oracle: bytes 0..10 are 'peppi.json'; entry names in order = peppi.json, metadata.json, start.json, start.raw, [end.json, end.raw iff the game has an end], [gecko_codes.raw iff gecko codes], frames.arrow last (required when rows > 0; with zero rows either choice is accepted); every *.json entry parses as JSON (own parser) and is byte-equal to serde's rendering of what peppi::read reconstructs from the archive; start.raw/end.raw equal the original blocks; writing the same game twice gives identical bytes, also when a write into a sink that fails after k bytes (5 positions) happened in between on the same thread (the failure must surface as Err). Unknown entries (random sizes; ordinary names, sub-directory names, directory entries such as './', a non-UTF-8 name, a name differing only in case; written with the harness's tar writer) inserted at EVERY position before frames.arrow must not change the game read. Format-version gate: peppi.json rewritten with version triples on both sides of 2.0.0 (quick: boundary neighbourhood + random; thorough adds all (major,minor,0) and random triples): < 2.0.0 must be rejected, >= 2.0.0 accepted, with the reader's skip_frames option off and on. distinct = workload classes x compression + entry-order shapes + insertion positions + version sides.".into()
 	}
 	fn assumptions(&self) -> Vec<String> {
 		vec!["versions 3.0-3.6 and empty port sets are skipped (peppi::write panics there: known finding under C02/C14)".into()]
@@ -176,6 +176,33 @@ impl Monitor for C18 {
 				_ => out.violate("json-invalid;peppi.json", format!("{}: peppi.json is not a JSON object", desc), Some(&bytes)),
 			}
 		}
+		// fault sequence on the writer: a write into a sink that fails after k bytes must not
+		// influence what the next write of the same game produces (same thread)
+		if bytes.len() < 200_000 {
+			for k in [0usize, 511, a1.len() / 2, a1.len().saturating_sub(1500), a1.len().saturating_sub(1)] {
+				if let Ok(g) = common::slp_read(&bytes, false, hash) {
+					out.evals += 1;
+					let opts = peppi::io::peppi::ser::Opts { compression: match comp { Comp::None => None, Comp::Lz4 => Some(arrow2::io::ipc::write::Compression::LZ4), Comp::Zstd => Some(arrow2::io::ipc::write::Compression::ZSTD) } };
+					let r = crate::driver::guard(move || {
+						let mut sink = FailingSink { left: k };
+						peppi::io::peppi::write(&mut sink, g, Some(&opts)).map_err(|e| e.to_string())
+					});
+					match r {
+						Ok(Err(_)) => out.count("failing_sink_surfaced_as_err", 1),
+						Ok(Ok(())) => out.violate("write-error-swallowed", format!("{}: sink failed after {} bytes but peppi::write returned Ok", desc, k), Some(&bytes)),
+						Err(p) => out.violate(format!("write-panic-on-sink-error;{}", crate::driver::norm_msg(&p.msg)), format!("{}: sink failing after {} bytes -> panic at {}: {}", desc, k, p.loc, p.msg), Some(&bytes)),
+					}
+					if let Ok(g2) = common::slp_read(&bytes, false, hash) {
+						match common::slpp_write(g2, comp) {
+							Ok(a3) if a3 == a1 => out.count("rewrite_after_failed_write_identical", 1),
+							Ok(a3) => out.violate("write-depends-on-earlier-failed-write", format!("{}: after a write that failed at byte {}, writing the same game again gives different bytes: {}", desc, k, common::first_diff(&a1, &a3)), Some(&bytes)),
+							Err(f) => out.violate(format!("write-fails-after-earlier-failed-write;{}", f.sig()), format!("{}: {}", desc, f.text()), Some(&bytes)),
+						}
+					}
+				}
+			}
+			out.class("writer-fault-sequence".to_string());
+		}
 		// unknown entries at every position before frames.arrow
 		let mut rng = Rng::derive(ctx.seed, 0xC18 ^ idx as u64);
 		if bytes.len() < 200_000 {
@@ -185,8 +212,14 @@ impl Monitor for C18 {
 				// the signature guarantee is about what the writer emits, so it is included
 				let mut es = entries.clone();
 				let n = *rng.pick(&[0usize, 1, 511, 512, 513, 2000]);
-				let name = *rng.pick(&["unknown.bin", "notes.txt", "frames.arrow.bak", "zz/extra.json", "start.raw.old"]);
-				es.insert(pos, tarx::Entry { name: name.into(), data: rng.bytes(n), header_at: 0, header: vec![] });
+				// ordinary names, names in sub-directories, directory entries ("./" as `tar -C dir .`
+				// emits), names that are not UTF-8, and names that merely resemble known ones
+				let names: [(&[u8], u8); 10] = [(b"unknown.bin", b'0'), (b"notes.txt", b'0'), (b"frames.arrow.bak", b'0'), (b"zz/extra.json", b'0'), (b"start.raw.old", b'0'), (b"./", b'5'), (b"caf\xe9.txt", b'0'), (b"extra/", b'5'), (b".", b'5'), (b"PEPPI.JSON", b'0')];
+				let (name_bytes, flag) = *rng.pick(&names);
+				let name = String::from_utf8_lossy(name_bytes).to_string();
+				let n = if flag == b'5' { 0 } else { n };
+				let data = rng.bytes(n);
+				es.insert(pos, tarx::Entry { name: name.clone(), data: data.clone(), header_at: 0, header: tarx::header_for_bytes(name_bytes, n, flag) });
 				let arch = tarx::write(&es);
 				out.evals += 1;
 				out.class(format!("unknown-entry@{}", pos.min(8)));
@@ -264,5 +297,24 @@ impl C18 {
 		}
 		out.sample = Some(json!({"case": "version-gate", "versions_tried": out.evals, "outcomes": out.counters}));
 		out
+	}
+}
+
+/// A sink that accepts `left` bytes and then fails (disk full / closed pipe).
+struct FailingSink {
+	left: usize,
+}
+
+impl std::io::Write for FailingSink {
+	fn write(&mut self, buf: &[u8]) -> std::io::Result<usize> {
+		if self.left == 0 {
+			return Err(std::io::Error::new(std::io::ErrorKind::Other, "injected sink failure"));
+		}
+		let n = buf.len().min(self.left);
+		self.left -= n;
+		Ok(n)
+	}
+	fn flush(&mut self) -> std::io::Result<()> {
+		Ok(())
 	}
 }
